@@ -180,7 +180,7 @@ def merge(bindings: list[BindingView], dups: list | None = None) -> TNode:
 
 
 def _key(n) -> str:
-    return n if isinstance(n, str) else "${" + str(n[1]) + "}"
+    return n if isinstance(n, str) else "\x00dyn:" + str(n[1])
 
 
 def _insert(node: TNode, path: tuple, b: BindingView, dups, trail: list) -> None:
